@@ -1,6 +1,7 @@
 package schd
 
 import (
+	"context"
 	"fmt"
 	"sort"
 	"strings"
@@ -26,6 +27,9 @@ func init() { seqx.StoreFactory = NewStore }
 
 var cfgFetch = &seqx.Config{Name: "fetch3", Writers: []int{0, 1, 2}, PC: 4}
 
+// callerDeadline is the caller's own, far-away deadline in CallerDeadline scenarios.
+const callerDeadline = time.Hour
+
 type loadSpec struct {
 	Shape   string
 	Loader  string // multihash | entryhash | json | entry
@@ -34,6 +38,8 @@ type loadSpec struct {
 	Faults  map[int]int // position in Values() order -> store.Fault
 	Exclude []int       // positions excluded through ShouldExclude
 	Timeout bool        // load with a timeout (virtual timer)
+	// CallerDeadline: the caller's own context carries a deadline an hour away (far later than the configured timeout)
+	CallerDeadline bool
 	Perm    int         // index of the permutation in which the heads are handed to the loader (0 = the log's own order)
 }
 
@@ -60,6 +66,9 @@ func (s loadSpec) name(prefix string) string {
 	}
 	if s.Timeout {
 		parts = append(parts, "timeout")
+	}
+	if s.CallerDeadline {
+		parts = append(parts, "caller-deadline-1h")
 	}
 	if s.Perm > 0 {
 		parts = append(parts, fmt.Sprintf("headorder%d", s.Perm))
@@ -189,17 +198,23 @@ func makeLoad(prefix string, ls loadSpec, judge func(s *stored, ls loadSpec, st 
 		}
 		body := func() {
 			lo := &ipfslog.LogOptions{ID: "X"}
+			ctx := world.Ctx
+			if ls.CallerDeadline {
+				var cancel context.CancelFunc
+				ctx, cancel = zvsync.WithTimeout(ctx, callerDeadline)
+				defer cancel()
+			}
 			switch ls.Loader {
 			case "multihash":
-				r.log, r.err = ipfslog.NewFromMultihash(world.Ctx, st, world.IDs[0], mh, lo, &ipfslog.FetchOptions{Length: lp, Concurrency: ls.Conc, ShouldExclude: shouldExclude, Timeout: to})
+				r.log, r.err = ipfslog.NewFromMultihash(ctx, st, world.IDs[0], mh, lo, &ipfslog.FetchOptions{Length: lp, Concurrency: ls.Conc, ShouldExclude: shouldExclude, Timeout: to})
 			case "entryhash":
-				r.log, r.err = ipfslog.NewFromEntryHash(world.Ctx, st, world.IDs[0], start[0], lo, &ipfslog.FetchOptions{Length: lp, Concurrency: ls.Conc, ShouldExclude: shouldExclude, Timeout: to})
+				r.log, r.err = ipfslog.NewFromEntryHash(ctx, st, world.IDs[0], start[0], lo, &ipfslog.FetchOptions{Length: lp, Concurrency: ls.Conc, ShouldExclude: shouldExclude, Timeout: to})
 			case "json":
-				r.log, r.err = ipfslog.NewFromJSON(world.Ctx, st, world.IDs[0], &iface.JSONLog{ID: "X", Heads: start}, lo, &iface.FetchOptions{Length: lp, Concurrency: ls.Conc, Timeout: to})
+				r.log, r.err = ipfslog.NewFromJSON(ctx, st, world.IDs[0], &iface.JSONLog{ID: "X", Heads: start}, lo, &iface.FetchOptions{Length: lp, Concurrency: ls.Conc, Timeout: to})
 			case "fetchall":
-				r.entries = entry.FetchAll(world.Ctx, st, start, &iface.FetchOptions{Concurrency: ls.Conc, ShouldExclude: shouldExclude, Timeout: to})
+				r.entries = entry.FetchAll(ctx, st, start, &iface.FetchOptions{Concurrency: ls.Conc, ShouldExclude: shouldExclude, Timeout: to})
 			case "entry":
-				r.log, r.err = ipfslog.NewFromEntry(world.Ctx, st, world.IDs[0], append([]iface.IPFSLogEntry{}, heads...), lo, &iface.FetchOptions{Length: lp, Concurrency: ls.Conc, Timeout: to})
+				r.log, r.err = ipfslog.NewFromEntry(ctx, st, world.IDs[0], append([]iface.IPFSLogEntry{}, heads...), lo, &iface.FetchOptions{Length: lp, Concurrency: ls.Conc, Timeout: to})
 			}
 			r.ret = true
 		}
